@@ -6,68 +6,176 @@ import PycommProofs.CodecSpec
 import PycommModel.Generated.Consts
 namespace Pycomm
 
+/-! ### helper lemmas -/
+namespace WF
+
+theorem streamRead_append (n : Nat) (bs rest : Bytes) (h : bs.length = n) (hn : 0 < n) :
+    streamRead (n : Int) (bs ++ rest) = .ok (bs, rest) := by
+  subst h
+  have h1 : ¬ ((bs.length : Int) < 0) := by omega
+  have hne : bs ≠ [] := by intro h0; subst h0; simp at hn
+  simp [streamRead, h1, hne]
+
+theorem intK_size_pos (k : IntK) : 0 < k.size := by cases k <;> simp [IntK.size]
+
+theorem decodeIntNat_append (k : IntK) (bs rest : Bytes) (h : bs.length = k.size) :
+    decodeIntNat k (bs ++ rest) = .ok (leVal bs, rest) := by
+  simp [decodeIntNat, streamRead_append k.size bs rest h (intK_size_pos k), bind, Except.bind, h]
+
+/-- in range, the two's-complement representative is the residue mod 2^(8·size) -/
+theorem ofSigned_eq (k : IntK) (i : Int) (h1 : k.lo ≤ i) (h2 : i ≤ k.hi) :
+    ofSigned k.size i = (i % ((2 ^ (8 * k.size) : Nat) : Int)).toNat := by
+  unfold ofSigned
+  cases k <;> simp [IntK.lo, IntK.hi, IntK.size, IntK.signed] at h1 h2 ⊢ <;> split <;> omega
+
+/-- a length prefix of an unsigned type -/
+theorem packInt_len (lenK : IntK) (n : Nat) (hk : lenK.signed = false) (hl : (n : Int) ≤ lenK.hi) :
+    packInt lenK (.int n) = .ok (leBytes lenK.size n) := by
+  have h1 : lenK.lo ≤ (n : Int) := by simp [IntK.lo, hk]
+  have h0 : (0 : Int) ≤ n := by omega
+  simp [packInt, PyVal.asIndex, h1, hl, ofSigned, h0]
+
+theorem encodeList_flatten (f : PyVal → R Bytes) (vs : List PyVal) (encs : List Bytes)
+    (hl : encs.length = vs.length) (h : ∀ p ∈ vs.zip encs, f p.1 = .ok p.2) :
+    encodeList f vs = .ok encs.flatten := by
+  induction vs generalizing encs with
+  | nil =>
+    cases encs with
+    | nil => rfl
+    | cons e es => simp at hl
+  | cons v vs ih =>
+    cases encs with
+    | nil => simp at hl
+    | cons e es =>
+      have hv : f v = .ok e := h (v, e) (by simp)
+      have ih' := ih es (by simpa using hl) (fun p hp => h p (by simp [hp]))
+      simp [encodeList, hv, ih', bind, Except.bind]
+
+/-- `bitsToNat` is least-significant-bit first -/
+theorem bitsToNat_testBit (bs : List Bool) (i : Nat) :
+    (bitsToNat (bs.map PyVal.bool)).testBit i = bs.getD i false := by
+  induction bs generalizing i with
+  | nil => simp [bitsToNat]
+  | cons b bs ih =>
+    cases i with
+    | zero =>
+      cases b <;> simp [bitsToNat, PyVal.truthy, Nat.testBit_zero] <;> omega
+    | succ i =>
+      have : ((if (PyVal.bool b).truthy = true then 1 else 0) + 2 * bitsToNat (bs.map PyVal.bool)) / 2
+          = bitsToNat (bs.map PyVal.bool) := by
+        split <;> omega
+      simp only [List.map_cons, bitsToNat, Nat.testBit_succ, this, ih, List.getD_cons_succ]
+
+/-- bit i of the j-th base-256 digit is bit 8j+i -/
+theorem testBit_byte (n j i : Nat) (hi : i < 8) :
+    (n / 256 ^ j % 256).testBit i = n.testBit (8 * j + i) := by
+  have h1 : (256 : Nat) ^ j = 2 ^ (8 * j) := by
+    rw [Nat.pow_mul]
+  have h2 : (256 : Nat) = 2 ^ 8 := by decide
+  rw [h1]
+  conv => lhs; rw [h2]
+  rw [Nat.testBit_mod_two_pow, Nat.testBit_div_two_pow]
+  simp [hi, Nat.add_comm]
+
+end WF
+
+-- PROPERTY THEOREMS
 theorem leBytes_length (w n : Nat) : (leBytes w n).length = w := by
-  sorry
+  induction w generalizing n with
+  | zero => simp [leBytes]
+  | succ w ih => simp [leBytes, ih]
 
 /-- little endian: byte j carries weight 256^j -/
 theorem leBytes_spec (w n j : Nat) (hj : j < w) :
     ((leBytes w n)[j]?).map (·.toNat) = some (n / 256 ^ j % 256) := by
-  sorry
+  induction w generalizing n j with
+  | zero => omega
+  | succ w ih =>
+    cases j with
+    | zero => simp [leBytes]
+    | succ j =>
+      simp only [leBytes, List.getElem?_cons_succ]
+      rw [ih (n / 256) j (by omega), Nat.div_div_eq_div_mul, Nat.pow_succ, Nat.mul_comm]
 
 /-- fixed-width integers: two's complement, little endian -/
 theorem encode_int_wire (k : IntK) (i : Int) (h1 : k.lo ≤ i) (h2 : i ≤ k.hi) :
     encode (.int k) (.int i) = .ok (leBytes k.size (i % ((2 ^ (8 * k.size) : Nat) : Int)).toNat) := by
-  sorry
+  simp only [encode, packInt, PyVal.asIndex, h1, h2, and_self, if_true, WF.ofSigned_eq k i h1 h2]
 
 /-- every byte pattern of the right width decodes to its two's-complement / unsigned reading -/
 theorem decode_int_wire (k : IntK) (bs rest : Bytes) (h : bs.length = k.size) :
     decode (.int k) (bs ++ rest) =
       .ok (.int (if k.signed = true ∧ 2 ^ (8 * k.size - 1) ≤ leVal bs
                  then (leVal bs : Int) - ((2 ^ (8 * k.size) : Nat) : Int) else (leVal bs : Int)), rest) := by
-  sorry
+  simp only [decode, decodeIntVal, WF.decodeIntNat_append k bs rest h, bind, Except.bind, toSigned]
+  cases hs : k.signed <;> simp
+  split <;> split <;> first | rfl | omega
 
 theorem encode_bool_wire (v : PyVal) : encode .bool v = .ok [if v.truthy then 0xFF else 0x00] := by
-  sorry
+  simp only [encode]
 
 theorem decode_bool_wire (b : UInt8) (rest : Bytes) :
     decode .bool (b :: rest) = .ok (.bool (b != 0), rest) := by
-  sorry
+  simp [decode, streamRead, bind, Except.bind, bne]
 
 theorem encode_real_wire (b b32 : Nat) (h : Flt.narrow b = some b32) :
     encode .real (.float b) = .ok (leBytes 4 b32) := by
-  sorry
+  simp only [encode, packReal, h]
 
 theorem encode_lreal_wire (b : Nat) : encode .lreal (.float b) = .ok (leBytes 8 b) := by
-  sorry
+  simp only [encode, packLReal]
 
 theorem decode_lreal_wire (bs rest : Bytes) (h : bs.length = 8) :
     decode .lreal (bs ++ rest) = .ok (.float (leVal bs), rest) := by
-  sorry
+  simp [decode, WF.decodeIntNat_append .ulint bs rest h, bind, Except.bind]
 
 theorem decode_real_wire (bs rest : Bytes) (h : bs.length = 4) :
     decode .real (bs ++ rest) = .ok (.float (Flt.widen (leVal bs)), rest) := by
-  sorry
+  simp [decode, WF.decodeIntNat_append .udint bs rest h, bind, Except.bind]
 
 /-- bit strings are least-significant-bit first: bit i of byte j is element 8j+i -/
 theorem encode_bits_wire (k : IntK) (bs : List Bool) (h : bs.length = 8 * k.size)
     (j i : Nat) (hj : j < k.size) (hi : i < 8) :
     ∃ enc, encode (.bits k) (.list (bs.map PyVal.bool)) = .ok enc ∧ enc.length = k.size ∧
       (enc[j]?).map (fun b => b.toNat.testBit i) = some (bs.getD (8 * j + i) false) := by
-  sorry
+  refine ⟨leBytes k.size (bitsToNat (bs.map PyVal.bool)), ?_, leBytes_length _ _, ?_⟩
+  · simp [encode, encodeBits, PyVal.iter?, PyVal.seq?, h]
+  · have hs := leBytes_spec k.size (bitsToNat (bs.map PyVal.bool)) j hj
+    cases he : (leBytes k.size (bitsToNat (bs.map PyVal.bool)))[j]? with
+    | none => rw [he] at hs; simp at hs
+    | some b =>
+      rw [he] at hs
+      simp only [Option.map_some, Option.some.injEq] at hs ⊢
+      rw [hs, WF.testBit_byte _ _ _ hi, WF.bitsToNat_testBit]
 
 theorem text_latin1_wire (cs : Name) (h : ∀ c ∈ cs, c < 256) :
     Text.encode .latin1 cs = some (cs.map UInt8.ofNat) := by
-  sorry
+  induction cs with
+  | nil => rfl
+  | cons c cs ih =>
+    have hc : c < 256 := h c (by simp)
+    have ih' := ih (fun x hx => h x (by simp [hx]))
+    simp [Text.encode, Text.encChar, hc, ih', Text.b]
 
 theorem text_utf16_wire (cs : Name) (h : ∀ c ∈ cs, c < 0x10000 ∧ ¬ (0xD800 ≤ c ∧ c ≤ 0xDFFF)) :
     Text.encode .utf16 cs = some (cs.flatMap fun c => [UInt8.ofNat (c % 256), UInt8.ofNat (c / 256)]) := by
-  sorry
+  induction cs with
+  | nil => rfl
+  | cons c cs ih =>
+    have hc := h c (by simp)
+    have ih' := ih (fun x hx => h x (by simp [hx]))
+    have h1 : Text.isSurrogate c = false := by
+      have := hc.2
+      simp only [Text.isSurrogate, Bool.and_eq_false_iff, decide_eq_false_iff_not]
+      omega
+    have h2 : ¬ (c > 0x10FFFF) := by omega
+    simp [Text.encode, Text.encChar, h1, h2, hc.1, ih', Text.b]
 
 /-- strings: length prefix of the documented width counting characters, then the characters -/
 theorem encode_str_wire (lenK : IntK) (enc : Enc) (cs : Name) (chars : Bytes)
     (hk : lenK.signed = false) (hl : (cs.length : Int) ≤ lenK.hi) (hc : Text.encode enc cs = some chars) :
     encode (.str lenK enc) (.str cs) = .ok (leBytes lenK.size cs.length ++ chars) := by
-  sorry
+  simp [encode, encodeStr, WF.packInt_len lenK cs.length hk hl, hc, bind, Except.bind]
 
 /-- fixed-capacity Logix strings: prefix, characters, zero padding up to the capacity -/
 theorem encode_fixedStr_wire (size : Nat) (lenK : IntK) (cs : Name)
@@ -75,14 +183,18 @@ theorem encode_fixedStr_wire (size : Nat) (lenK : IntK) (cs : Name)
     encode (.fixedStr size lenK) (.str cs) =
       .ok (leBytes lenK.size cs.length ++ cs.map UInt8.ofNat ++ zeros (size - cs.length)) ∧
     (leBytes lenK.size cs.length ++ cs.map UInt8.ofNat ++ zeros (size - cs.length)).length = lenK.size + size := by
-  sorry
+  constructor
+  · simp [encode, encodeFixedStr, WF.packInt_len lenK cs.length hk hl, text_latin1_wire cs hc,
+      bind, Except.bind]
+  · simp [leBytes_length, zeros]; omega
 
 /-- arrays are the concatenation of their elements' encodings -/
 theorem encode_array_wire (n : Nat) (t : Ty) (vs : List PyVal) (encs : List Bytes) (hb : t.isBits = none)
     (hn : vs.length = n) (hl : encs.length = vs.length)
     (h : ∀ p ∈ vs.zip encs, encode t p.1 = .ok p.2) :
     encode (.arr (.fixed n) t) (.list vs) = .ok encs.flatten := by
-  sorry
+  subst hn
+  simp [encode, PyVal.len?, hb, PyVal.seq?, WF.encodeList_flatten (encode t) vs encs hl h]
 
 /-- the i-th generated DataTypes row -/
 def specCodes : List (Nat × Nat) :=
@@ -94,11 +206,11 @@ def specCodes : List (Nat × Nat) :=
     table the source declares now (regenerated from /repo on every run) -/
 theorem type_code_table :
     ∀ cw ∈ specCodes, ∃ row ∈ Gen.dataTypes, row.2.2.1 = cw.1 ∧ row.2.2.2.1 = cw.2 := by
-  sorry
+  decide +kernel
 
 /-- and no two differently-named members share a code except the two EPATH spellings (0xDC) -/
 theorem type_codes_distinct :
     ∀ r1 ∈ Gen.dataTypes, ∀ r2 ∈ Gen.dataTypes, r1.2.2.1 = r2.2.2.1 → r1.2.2.1 ≠ 0xDC → r1.1 = r2.1 := by
-  sorry
+  decide +kernel
 
 end Pycomm
